@@ -17,7 +17,7 @@ use crate::iterators::{
 use crate::layout::{
     AsIndex, AsShape, BroadcastLayout, DynLayout, FromShape, InsertDim, IntoLayout, Layout,
     LayoutExt, MatrixLayout, MutLayout, NdLayout, OverlapPolicy, RemoveDim, ResizeLayout,
-    SizeArray, SliceWith, TrustedLayout,
+    SizeArray, SliceWith, TrustedLayout, checked_len, checked_min_data_len,
 };
 use crate::overlap::may_have_internal_overlap;
 use crate::slice_range::{IntoSliceItems, SliceItem};
@@ -580,10 +580,11 @@ impl<S: Storage, L: Layout> TensorBase<S, L> {
         L: FromShape,
     {
         let data = data.into_storage();
-        let layout = L::from_shape(shape);
-        if layout.min_data_len() != data.len() {
+        // A shape whose element count overflows cannot match any storage.
+        if checked_len(shape.iter()) != Some(data.len()) {
             return Err(FromDataError::StorageLengthMismatch);
         }
+        let layout = L::from_shape(shape);
         Ok(TensorBase { data, layout })
     }
 
@@ -1179,7 +1180,8 @@ impl<T, L: Clone + Layout> TensorBase<Vec<T>, L> {
     {
         let mut new_layout = self.layout.clone();
         new_layout.resize_dim(axis, new_size);
-        let new_data_len = new_layout.min_data_len();
+        let new_data_len =
+            checked_min_data_len(new_layout.shape().iter(), new_layout.strides().iter())?;
 
         let has_capacity = new_data_len <= self.data.capacity()
             && !may_have_internal_overlap(new_layout.shape(), new_layout.strides());
